@@ -24,7 +24,9 @@ func TestMain(m *testing.M) {
 // ---- generators -----------------------------------------------------------
 
 func genIP(t *rapid.T, label string) net.IP {
-	switch rapid.IntRange(0, 6).Draw(t, label+"_kind") {
+	switch rapid.IntRange(0, 7).Draw(t, label+"_kind") {
+	case 7: // loopback IPv4 (a local relay, a test server)
+		return net.IPv4(127, 0, 0, byte(rapid.IntRange(1, 3).Draw(t, label+"_lo4"))).To4()
 	case 0, 1: // IPv4
 		b := rapid.SliceOfN(rapid.Byte(), 4, 4).Draw(t, label+"_v4")
 		return net.IPv4(b[0], b[1], b[2], b[3]).To4()
@@ -124,7 +126,7 @@ func TestC19_ClientIP(t *testing.T) {
 		p1 := rapid.IntRange(1, 65535).Draw(t, "p1")
 		var ip2 net.IP
 		z2 := z1
-		rel := rapid.SampledFrom([]string{"same", "sameaddr-otherport", "other", "other", "neighbour", "otherzone"}).Draw(t, "rel")
+		rel := rapid.SampledFrom([]string{"same", "sameaddr-otherport", "other", "other", "neighbour", "otherzone", "text-prefix"}).Draw(t, "rel")
 		p2 := p1
 		switch rel {
 		case "same":
@@ -137,6 +139,13 @@ func TestC19_ClientIP(t *testing.T) {
 			if ip1.To4() == nil {
 				z2 = rapid.SampledFrom([]string{"eth0", "eth1", "2", ""}).Draw(t, "z2o")
 			}
+		case "text-prefix": // the first address, as text, is a proper prefix of the second (10.0.0.1 / 10.0.0.12)
+			b := rapid.SliceOfN(rapid.Byte(), 3, 3).Draw(t, "tp")
+			d := rapid.IntRange(1, 25).Draw(t, "tpLast")
+			ip1 = net.IPv4(b[0], b[1], b[2], byte(d)).To4()
+			ip2 = net.IPv4(b[0], b[1], b[2], byte(d*10+rapid.IntRange(0, 5).Draw(t, "tpDigit"))).To4()
+			z1, z2 = "", ""
+			p2 = rapid.IntRange(1, 65535).Draw(t, "p2")
 		case "neighbour": // differs in the last byte only
 			ip2 = append(net.IP{}, ip1...)
 			ip2[len(ip2)-1] ^= byte(rapid.IntRange(1, 255).Draw(t, "flip"))
@@ -153,6 +162,13 @@ func TestC19_ClientIP(t *testing.T) {
 
 		r1 := &http.Request{RemoteAddr: a1, Header: http.Header{}}
 		r2 := &http.Request{RemoteAddr: a2, Header: http.Header{}}
+		// what the request claims about its origin is not the peer address
+		for _, r := range []*http.Request{r1, r2} {
+			if rapid.IntRange(0, 2).Draw(t, "claims") == 0 {
+				claimed := rapid.SampledFrom([]string{"10.1.2.3", "203.0.113.9, 10.0.0.1", "::1", "unknown", a1, a2}).Draw(t, "claimed")
+				r.Header.Set(rapid.SampledFrom([]string{"X-Forwarded-For", "X-Real-Ip", "Forwarded", "Client-Ip"}).Draw(t, "claimHeader"), claimed)
+			}
+		}
 		t1, n1, e1 := extract(t, "client.ip", r1)
 		t2, n2, e2 := extract(t, "client.ip", r2)
 		checkClientIP(t.Fatalf, a1, t1, n1, e1)
